@@ -368,6 +368,12 @@ impl TokenParser {
     }
 
     pub fn reset(&mut self) -> Result<()> {
+        // tokens removed by backtracking (stop=... text) are no longer in llm_tokens,
+        // so rolling back llm_tokens would not bring the parser back to its initial state
+        ensure!(
+            !self.had_backtrack,
+            "reset not supported after backtracking (stop=... lexemes)"
+        );
         self.rollback(self.llm_tokens.len())
     }
 
